@@ -15,6 +15,7 @@ import ast, base64, hashlib, os, struct
 import aux_mii_layout as L
 import aux_c19_real as R
 import aux_c19_walks as W
+import aux_c19_bounds as B
 from aux_c19_real import hx, cps
 
 LEVEL = "proof"
@@ -78,6 +79,8 @@ def run(ctx):
                 "every Mii field is swept over its full range with the other fields random; malformed/out-of-range inputs included. "
                 "single DAuth/AAuth/Hpp/NASC/ProdInfo/MiiData objects are driven through operation sequences in which every public knob (shared Settings object, "
                 "keys dict, attributes, setters) is turned between requests, each request compared with the Lean reference for the values in force and with a fresh object; "
+                "every counter block / length / id / key generation these routines read is placed at and around every carry, block and width limit "
+                "(128-bit CTR counter block of the wrapped TLS key: low k bits all ones or j short of it for every byte position k and every j the 16 blocks can cross); "
                 "distinct non-trivial = distinct input lines that are not plain rejections of random garbage")
 
     # ---- 0. self-test of the Lean references against published vectors
@@ -474,7 +477,7 @@ def run(ctx):
     rsa = RSA.import_key(tkey.encode(tls.TYPE_DER))
     def put_crc(blob, off, size):
         struct.pack_into("<H", blob, off + size - 2, nswitch.crc16(bytes(blob[off:off + size - 2])))
-    def make_prod(devid, kek):
+    def make_prod(devid, kek, initial=None):
         """well-formed calibration data: device id, the test certificate, the test key's private exponent wrapped with `kek`"""
         blob = bytearray(rng.randbytes(0x3C40))
         blob[0x2B56:0x2B66] = (("%016x" if rng.random() < 0.5 else "%016X") % devid).encode()
@@ -482,9 +485,9 @@ def run(ctx):
         struct.pack_into("<I", blob, 0xAD0, len(der_cert)); put_crc(blob, 0xAD0, 0x10)
         blob[0xAE0:0xAE0 + len(der_cert)] = der_cert
         blob[0x12E0:0x1300] = hashlib.sha256(der_cert).digest()
-        initial = rng.randbytes(16)
+        if initial is None: initial = rng.randbytes(16)
         blob[0x3AE0:0x3AF0] = initial
-        blob[0x3AF0:0x3BF0] = AES.new(kek, AES.MODE_CTR, nonce=b"", initial_value=initial).encrypt(rsa.d.to_bytes(0x100, "big"))
+        blob[0x3AF0:0x3BF0] = B.ctr_textbook(kek, initial, rsa.d.to_bytes(0x100, "big"))
         put_crc(blob, 0x3AE0, 0x140)
         return bytes(blob)
     for i in range(10 if quick else 120):
@@ -720,6 +723,7 @@ def run(ctx):
     W.nasc_walks(ctx, rng, C, oracle_fail, quick)
     W.nnas_grid(ctx, rng, C, oracle_fail, quick)
     # one ProdInfo object: the keys dict it was given and its data are replaced between calls
+    walk_ctrs = B.carry_values(rng, 128, 16, quick)
     for w in range(1 if quick else 6):
         kname = rng.choice(["ssl_rsa_kek", "ssl_rsa_kek_personalized"])
         kek = rng.randbytes(16)
@@ -748,7 +752,11 @@ def run(ctx):
                 else:
                     history.append({"do": "prodinfo.data = other calibration data (same key, other device id / counter block)"})
                 devid = rng.randrange(1 << 64)
-                P.data = make_prod(devid, kek)
+                ini = None
+                if rng.random() < 0.6:
+                    lab, c0 = rng.choice(walk_ctrs); ini = c0.to_bytes(16, "big")
+                    history[-1]["counter_block_of_the_new_data"] = "%s (%s)" % (ini.hex(), lab)
+                P.data = make_prod(devid, kek, ini)
             blob = P.data
             rp = {"sequence_on_one_object": list(history), "how": "ONE ProdInfo object; after the listed assignments get_tls_key() / get_device_id() must answer for the CURRENT keys and data"}
             try:
@@ -763,6 +771,20 @@ def run(ctx):
             except Exception as e: real = "err " + R.exc_name(e)
             if real != "ok %d" % devid:
                 oracle_fail.append(("prod-stateful", "get_device_id on a ProdInfo whose data was replaced returns %s, stored id %d" % (real, devid), rp))
+
+    # ------------------------------------------------------------------------------------------ boundary values
+    # every counter / nonce / length / index these routines take from their input, AT and AROUND every carry, block and
+    # width limit of its positional representation (uniform draws above never get there): see aux_c19_bounds.py
+    import time as _time
+    _t0, _n0 = _time.time(), len(C.lines)
+    B.prod_bounds(ctx, rng, C, oracle_fail, quick, B.ProdKit(rng, tkey, der_cert))
+    B.dauth_bounds(ctx, rng, C, oracle_fail, quick, drv)
+    B.aauth_bounds(ctx, rng, C, oracle_fail, quick, test_key)
+    B.hpp_bounds(ctx, rng, C, oracle_fail, quick)
+    B.nnas_bounds(ctx, rng, C, oracle_fail, quick)
+    B.nasc_bounds(ctx, rng, C, oracle_fail, quick)
+    ctx.extra["boundary_lines"] = len(C.lines) - _n0
+    ctx.extra["boundary_seconds_real_side"] = round(_time.time() - _t0, 1)
 
     # ------------------------------------------------------------------------------------------ compare
     outs = par_batch(drv, C.lines)
